@@ -46,10 +46,8 @@ impl DtnAddress {
         DtnAddress(format!("//{}/{}", node, service))
     }
     pub fn node_name(&self) -> &str {
-        self.0
-            .split('/')
-            .nth(2)
-            .expect("invalid internal dtn address format")
+        // addresses decoded from the wire may lack the "//node/" structure
+        self.0.split('/').nth(2).unwrap_or_default()
     }
     pub fn service_name(&self) -> Option<&str> {
         self.0.splitn(4, '/').nth(3).filter(|&s| !s.is_empty())
@@ -382,7 +380,14 @@ impl EndpointID {
 
     pub fn validate(&self) -> Result<(), EndpointIdError> {
         match self {
-            EndpointID::Dtn(_, _) => Ok(()), // TODO: Implement validation for dtn scheme
+            EndpointID::Dtn(_, addr) => {
+                // "//" node-name "/" [service]
+                if addr.0.starts_with("//") && addr.0[2..].contains('/') {
+                    Ok(())
+                } else {
+                    Err(EndpointIdError::InvalidUrlFormat)
+                }
+            }
             EndpointID::Ipn(code, addr) => {
                 if *code != ENDPOINT_URI_SCHEME_IPN {
                     Err(EndpointIdError::SchemeMismatch(
